@@ -60,14 +60,19 @@ def _finite_by_type(npath):
     every generic spelling the compiler prints (BTreeMap, VecDeque, BinaryHeap, sets, char/byte views ...) is covered."""
     if not (npath.startswith("<") and npath.endswith(" as std::iter::Iterator>::next")):
         return False
-    ty = npath[1:].split(" as ")[0]
+    return _finite_ty(npath[1:].split(" as ")[0])
+
+
+def _finite_ty(ty):
+    ty = ty.split("<")[0] + "<" + ty.split("<", 1)[1] if "<" in ty else ty
+    head = ty.split("<")[0] + ("<" if "<" in ty else "")
     bases = ("std::collections::btree_map::", "std::collections::btree_set::", "std::collections::hash_map::", "std::collections::hash_set::",
              "std::collections::vec_deque::", "std::collections::binary_heap::", "std::collections::linked_list::", "std::slice::", "std::vec::IntoIter<", "std::vec::Drain<",
              "std::str::", "std::option::", "std::result::", "std::array::IntoIter<", "std::char::ToLowercase", "std::char::ToUppercase", "std::char::EscapeDefault", "std::string::Drain<")
     finite_names = ("Iter<", "IterMut<", "IntoIter<", "Keys<", "Values<", "ValuesMut<", "IntoKeys<", "IntoValues<", "Drain<", "Range<", "Chars<", "CharIndices<", "Bytes<", "Split<", "RSplit<", "SplitN<", "RSplitN<",
                     "SplitTerminator<", "RSplitTerminator<", "SplitInclusive<", "Lines<", "SplitWhitespace<", "SplitAsciiWhitespace<", "Matches<", "RMatches<", "MatchIndices<", "RMatchIndices<", "EncodeUtf16<", "Chunks<", "ChunksExact<", "Windows<",
                     "ToLowercase", "ToUppercase", "EscapeDefault", "Difference<", "Intersection<", "Union<", "SymmetricDifference<")
-    return ty.startswith(bases) and any(("::" + n) in ty or ty.endswith(n.rstrip("<")) for n in finite_names)
+    return head.startswith(bases) and any(("::" + n) in head or head.endswith(n.rstrip("<")) for n in finite_names)
 
 
 def local_finite_types(facts):
@@ -97,7 +102,7 @@ def finite_iterator(npath, term, extra_bases=()):
                 if not hit:
                     break
                 inner = inner[len(hit[0]) + 1:]
-            if inner.startswith(FINITE_BASES) or (extra_bases and inner.startswith(extra_bases)):
+            if inner.startswith(FINITE_BASES) or _finite_ty(inner) or (extra_bases and inner.startswith(extra_bases)):
                 return True   # for Zip/Chain: the first component bounds (Zip) or both must be finite; first is checked
     return False
 
